@@ -280,7 +280,7 @@ func Verif_C06_Take() {
 	}
 }
 
-//verif:entry tier=quick,thorough steps=600000 cover=shared,single
+//verif:entry dpor tier=quick,thorough steps=600000 cover=shared,single
 //verif:stub (github.com/zeromicro/go-zero/core/mathx.Unstable).AroundDuration c06NoJitter
 //verif:doc Two concurrent cached reads of one uncached key under every interleaving: at most one database query in flight at any time, every reader receives that query's result (row, not-found or database error).
 func Verif_C06_Flight() {
